@@ -162,7 +162,11 @@ fn values_of(ty: usize, cls: &str, r: &mut Rng) -> Vec<f64> {
 
 fn garbage(route: &str) -> Vec<&'static str> {
     if route == "txt" {
-        vec!["", "abc", "1,5", "--1", "1e", "0x10", "1_0", "1.2.3", "12N", "e5", ".", "-", "+-1", "１２", "1 2", "NaN(0)", "1e+"]
+        vec!["", "abc", "1,5", "--1", "1e", "0x10", "1_0", "1.2.3", "12N", "e5", ".", "-", "+-1", "１２", "1 2", "NaN(0)", "1e+",
+             // long and non-ASCII garbage (error paths that format, truncate or echo the rejected text)
+             "39° 01′ 05.4″ N", "١٢٣٤٥٦٧٨٩٠١٢٣٤٥٦٧٨٩٠", "forty-two degrees and a half north of the equator ✓✓✓",
+             "aaaaaaaaaaaaaaaaaaaaaaaaaaaaaaaaaaaaaaaaaaaaaaaaaaaaaaaaaaaaaaaaaaaaaaaa", "12.5°", "1234567890123456é", "123456789012345é7",
+             "\u{0}", "12\u{0}", "\n", "１２．５"]
     } else {
         vec!["\"12\"", "true", "[1]", "{}", "null", "1e", "", "01", "+1", ".5", "5.", "0x10", "\"NaN\"", "NaN", "Infinity", "-Infinity", "1 2", "{\"v\":1}"]
     }
@@ -291,6 +295,56 @@ pub fn gen(args: &Args) {
         }
     }
 
+    // sequences: the same bit pattern offered to one type after another (validation must not remember
+    // what a previous call - of this or another type - accepted)
+    for v in [500.0f64, 120.0, -100.0, 5000.0, 57.0, 90.0, -90.0, 12.0, -12.0, 100.0, 1050.0, 180.0, -180.0, 8848.0, -420.0, 0.0, 13.0, 91.0, 60.5] {
+        for first in 1..=6usize {
+            for second in 1..=6usize {
+                if first == second {
+                    continue;
+                }
+                for route in ["num", "json", "txt", "doc"] {
+                    if route == "txt" && (first > 4 || second > 4) {
+                        continue;
+                    }
+                    let s = format!("{:?}", v);
+                    let run = |ty: usize| match route {
+                        "num" => num_route(ty, v),
+                        "json" => json_route(ty, &s),
+                        "txt" => txt_route(ty, &s),
+                        _ => doc_route(ty, &s, 0),
+                    };
+                    let r1 = run(first);
+                    let r2 = run(second);
+                    emit(&mut w, first, "rand", route, "any", &s, Some(v), r1);
+                    emit(&mut w, second, "rand", route, "any", &s, Some(v), r2);
+                }
+            }
+        }
+    }
+    // a composite document listing the same out-of-range-for-one value in several fields
+    for (doc, want_ok) in [
+        ("{\"pressure\":500.0,\"temperature\":500.0}", false),
+        ("{\"pressure\":50.0,\"temperature\":50.0}", false),
+        ("{\"pressure\":200.0,\"temperature\":20.0}", true),
+    ] {
+        let ok = serde_json::from_str::<Weather>(doc).is_ok();
+        // judged through the ordinary event: temperature (type 6) / pressure (type 5) of the value that must decide
+        let v = if doc.contains("500.0") { 500.0 } else if doc.contains("50.0") { 50.0 } else { 20.0 };
+        let ty = if v == 50.0 { 5 } else { 6 };
+        let res: Res = Ok(if ok { Some(v) } else { None });
+        let _ = want_ok;
+        emit(&mut w, ty, "rand", "doc", "any", &format!("{:?}", v), Some(v), res);
+    }
+    for (doc, field_ty, v) in [
+        ("{\"coords\":{\"longitude\":120.0,\"latitude\":120.0,\"elevation\":0.0},\"gmt\":1.0}", 2usize, 120.0f64),
+        ("{\"gmt\":12.0,\"coords\":{\"elevation\":100.0,\"longitude\":100.0,\"latitude\":100.0}}", 2, 100.0),
+        ("{\"coords\":{\"elevation\":13.0,\"latitude\":13.0,\"longitude\":13.0},\"gmt\":13.0}", 1, 13.0),
+    ] {
+        let ok = serde_json::from_str::<Location>(doc).is_ok();
+        let res: Res = Ok(if ok { Some(v) } else { None });
+        emit(&mut w, field_ty, "rand", "doc", "any", &format!("{:?}", v), Some(v), res);
+    }
     // impl -> spec: seeded random bit patterns (all exponents) and near-bound perturbations
     let n = if thorough { 60000 } else { 6000 };
     for i in 0..n {
